@@ -190,7 +190,7 @@ Definition cpython_bases (vs : list bval) : option (list (list string)) :=
 
 (* Inspector.inspect_class *)
 Definition inspector_bases (rb : list (list string)) : list string :=
-  map join_dot (filter (fun p => negb (path_eqb p builtins_object)) rb).
+  map join_dot (filter (fun p => negb (inspector_skips_object && path_eqb p builtins_object)) rb).
 
 (* the path under which the written base is known: module.qualname of the class / of the alias' origin; the typing
    aliases of builtins are known under their typing name *)
